@@ -434,11 +434,21 @@ structure Cfg where
   fromArray : Bool := false      -- WithFromArray (form)
   canonical : Bool := false      -- WithCanonicalKeyFunc(textproto.CanonicalMIMEHeaderKey) (header)
   lower : Bool := false          -- WithCanonicalKeyFunc(strings.ToLower) (core/conf)
+  opaqueKeys : Bool := false         -- WithOpaqueKeys (form, path): a key with dots is looked up literally
+  nested : Bool := false         -- position, not an option: inside a struct field (the node has ancestors the model does not thread)
   pinned : Bool := false         -- behaviour of the pinned commit (see header)
   deriving Repr, DecidableEq
 
 /-- the same configuration on the repaired code -/
 def Cfg.repaired (c : Cfg) : Cfg := { c with pinned := false }
+
+/-- the unmarshaler inside a struct-typed field: `processFieldStruct` hands on a node whose parent is the valuer of the
+enclosing struct (`simpleValuer{current: mv, parent: vp.parent}`) -/
+def Cfg.nest (c : Cfg) : Cfg := { c with nested := true }
+
+/-- the unmarshaler on a fresh node without ancestors: struct elements of slices and maps (`fillStructElement` →
+`u.unmarshal`), an absent struct field (`valueWithParent{value: emptyMap}`) -/
+def Cfg.top (c : Cfg) : Cfg := { c with nested := false }
 
 /-! ## canonical keys (header unmarshaler) -/
 
@@ -702,6 +712,57 @@ def optOutside (o : Option Opts) : Bool :=
   | some o => o.inherit
   | none => false
 
+/-! ### keys with dots: `getValue` / `readKeys` / `getValueWithChainedKeys`
+
+`readKeys(key, opaque)`: an opaque unmarshaler (`WithOpaqueKeys`: rest/httpx form and path) looks the key up literally;
+every other one splits it at the dots (`strings.FieldsFunc`, empty segments dropped; the package-level `cacheKeys` is
+transparent: it is consulted only on the non-opaque path, same text, same split).  `getValueWithChainedKeys`: the first
+segment through the field's valuer (simple: the current object only — `inherit` is outside the model), every further one
+through `recursiveValuer{current: nextm, parent: m}`, i.e. in the object found so far, else in the enclosing objects,
+nearest first.  The ancestors of a nested struct's node are not threaded by the model: with `unk = true` a lookup that
+runs past the objects the model knows answers `outside`.  Where `recursiveValuer.Value` would merge inherited entries
+into the found object (it writes into the caller's document) the model answers `outside` as well. -/
+
+/-- `strings.FieldsFunc(key, func(c rune) bool { return c == '.' })` -/
+def fieldsDot (s : Str) : List Str := (splitOnChar '.' s).filter (fun seg => !seg.isEmpty)
+
+/-- `recursiveValuer.Value` on the chain `ch` (current object first), without the merge -/
+def recLookup (unk : Bool) : List Obj → Str → Except Err (Option J)
+  | [], _ => if unk then .error .outside else .ok none
+  | cur :: parents, k =>
+    match getKey k cur with
+    | none => recLookup unk parents k
+    | some (.obj vm) =>
+      match recLookup unk parents k with
+      | .error e => .error e
+      | .ok (some (.obj pm)) => if pm.all (fun kv => hasKey kv.1 vm) then .ok (some (.obj vm)) else .error .outside
+      | .ok _ => .ok (some (.obj vm))
+    | some v => .ok (some v)
+
+/-- `getValueWithChainedKeys` below the first segment -/
+def chainedLookup (unk : Bool) : List Str → List Obj → Except Err (Option J)
+  | [], _ => .ok none
+  | [k], ch => recLookup unk ch k
+  | k :: k2 :: rest, ch =>
+    match recLookup unk ch k with
+    | .error e => .error e
+    | .ok (some (.obj nm)) => chainedLookup unk (k2 :: rest) (nm :: ch)
+    | .ok _ => .ok none
+
+/-- `getValueWithChainedKeys(valuer, keys)` with the simple valuer of the field -/
+def dottedLookup (unk : Bool) (keys : List Str) (m : Obj) : Except Err (Option J) :=
+  match keys with
+  | [] => .ok none
+  | [k] => .ok (getKey k m)
+  | k :: k2 :: rest =>
+    match getKey k m with
+    | some (.obj nm) => chainedLookup unk (k2 :: rest) [nm, m]
+    | _ => .ok none
+
+/-- `getValue(valuer, canonicalKey, u.opts.opaqueKeys)` -/
+def lookupKey (c : Cfg) (key : Str) (m : Obj) : Except Err (Option J) :=
+  if c.opaqueKeys || !key.contains '.' then .ok (getKey key m) else dottedLookup c.nested (fieldsDot key) m
+
 /-- `processField` / `processNamedField` for one field against the object `m`; the type-directed
 continuations are passed in (`wv` = with a value, `ar` = absent and required, `dv` = default, `z` = zero value) -/
 def fieldCore (c : Cfg) (name : Str) (tag : Option Str) (isSlice : Bool) (m : Obj)
@@ -718,14 +779,14 @@ def fieldCore (c : Cfg) (name : Str) (tag : Option Str) (isSlice : Bool) (m : Ob
       | .ok o =>
         if key = "-".toList then .ok z
         else if optOutside o then .error .outside
-        else if key.contains '.' then .error .outside
         else
-          match getKey key m with
-          | none =>
+          match lookupKey c key m with
+          | .error e => .error e
+          | .ok none =>
             if optDefault o ≠ [] then dv (optDefault o)
             else if optOptional o then .ok z
             else ar ()
-          | some j0 =>
+          | .ok (some j0) =>
             -- pinned commit: `reflect.TypeOf(nil).Kind()` under WithFromArray
             if c.pinned && c.fromArray && !isSlice && j0.isNull then .error .panic else
             match fromArrayValue c isSlice j0 with
@@ -832,13 +893,13 @@ def withValue (c : Cfg) (o : Option Opts) : Ty → J → Except Err Val
     | _ => .error .mismatch
   | .slice t, j =>
     match j with
-    | .arr l => (mapElems (fun j => if j.isNull then .ok (zero t) else elemValue c t j) l).map (sliceResult l)
+    | .arr l => (mapElems (fun j => if j.isNull then .ok (zero t) else elemValue c.top t j) l).map (sliceResult l)
     | .num _ => .error .json          -- fillSliceFromString: encoding/json refuses a number
     | .str _ => .error .outside       -- string-encoded slice ([]byte base64, JSON text)
     | _ => .error .mismatch
   | .map t, j =>
     match j with
-    | .obj m => (mapEntries (fun j => mapElemValue c t j) (canonObj m)).map .map
+    | .obj m => (mapEntries (fun j => mapElemValue c.top t j) (canonObj m)).map .map
     | .num _ => .error .json          -- fillMapFromString
     | .str _ => .error .outside
     | _ => .error .mismatch
@@ -860,11 +921,11 @@ def elemValue (c : Cfg) : Ty → J → Except Err Val
     | _ => .error .mismatch
   | .slice t, j =>
     match j with
-    | .arr l => (mapElems (fun j => if j.isNull then .ok (zero t) else elemValue c t j) l).map (sliceResult l)
+    | .arr l => (mapElems (fun j => if j.isNull then .ok (zero t) else elemValue c.top t j) l).map (sliceResult l)
     | _ => .error .mismatch
   | .map t, j =>
     match j with
-    | .obj m => (mapEntries (fun j => mapElemValue c t j) (canonObj m)).map .map
+    | .obj m => (mapEntries (fun j => mapElemValue c.top t j) (canonObj m)).map .map
     | .num _ => .error .unsupported
     | .str _ => .error .unsupported
     | _ => .error .mismatch
@@ -889,12 +950,12 @@ def mapElemValue (c : Cfg) : Ty → J → Except Err Val
     | _ => .error .mismatch
   | .slice t, j =>
     match j with
-    | .arr l => (mapElems (fun j => if j.isNull then .ok (zero t) else elemValue c t j) l).map (sliceResult l)
+    | .arr l => (mapElems (fun j => if j.isNull then .ok (zero t) else elemValue c.top t j) l).map (sliceResult l)
     | .null => if c.pinned then .error .panic else .error .mismatch
     | _ => .error .mismatch
   | .map t, j =>
     match j with
-    | .obj m => (mapEntries (fun j => mapElemValue c t j) (canonObj m)).map .map
+    | .obj m => (mapEntries (fun j => mapElemValue c.top t j) (canonObj m)).map .map
     | _ => .error .mismatch
 
 /-- `processNamedFieldWithoutValue` for a field that is neither defaulted nor optional -/
@@ -907,14 +968,14 @@ def absentRequired (c : Cfg) : Ty → Except Err Val
     match structRequired fs with
     | .error e => .error e
     | .ok true => .error .notSet
-    | .ok false => (unmFields c fs []).map .struct
+    | .ok false => (unmFields c.top fs []).map .struct
   | .slice _ => .error .mismatch
   | .map _ => .ok (.map .nil)
 
 def unmFields (c : Cfg) : Fields → Obj → Except Err VFields
   | .nil, _ => .ok .nil
   | .cons name tag t rest, m =>
-    match fieldCore c name tag t.isSlice m (fun o j => withValue c o t j) (fun _ => absentRequired c t)
+    match fieldCore c name tag t.isSlice m (fun o j => withValue c.nest o t j) (fun _ => absentRequired c t)
             (defaultVal c t) (zero t) with
     | .error e => .error e
     | .ok v =>
@@ -994,8 +1055,8 @@ def recValue (ch : Chain) (k : Str) : Option J := (recValueM ch k).1
 
 /-! ## rest/httpx.Parse: path, form, header and JSON body unmarshalers on one target -/
 
-def httpCfgPath (pinned : Bool) : Cfg := { fromString := true, pinned := pinned }
-def httpCfgForm (pinned : Bool) : Cfg := { fromString := true, fromArray := true, pinned := pinned }
+def httpCfgPath (pinned : Bool) : Cfg := { fromString := true, opaqueKeys := true, pinned := pinned }
+def httpCfgForm (pinned : Bool) : Cfg := { fromString := true, fromArray := true, opaqueKeys := true, pinned := pinned }
 def httpCfgHeader (pinned : Bool) : Cfg := { fromString := true, canonical := true, pinned := pinned }
 def httpCfgJson (pinned : Bool) : Cfg := { pinned := pinned }
 
